@@ -102,7 +102,7 @@ func GenC47(r *simcore.Rand, tier string) any {
 	sort.Ints(ats)
 	for i := 0; i < nops; i++ {
 		op := Op{After: ats[i]}
-		switch r.Pick(4, 2, 2, 1, 1, 1) {
+		switch r.Pick(4, 2, 2, 1, 1, 1, 2) {
 		case 0:
 			op.K, op.N = "move", r.Range(1, 3)
 		case 1:
@@ -115,6 +115,11 @@ func GenC47(r *simcore.Rand, tier string) any {
 			op.K, op.N = "join", r.Intn(np)
 		case 5:
 			op.K, op.N = "jump", r.Range(1, 90)
+		case 6:
+			op.K = "crash"
+			if r.Bool(0.5) {
+				op.N = r.Range(1, 6)
+			}
 		}
 		p.Ops = append(p.Ops, op)
 	}
